@@ -306,7 +306,12 @@ func runC07(tier string, seed uint64) {
 				c07Rounds(kind, rng, rounds, 5, true)
 			}
 		}
+		c07MultipartForced(kind)
+		for rep := 0; rep < reps; rep++ {
+			c07MultipartRounds(kind, rng, rounds)
+		}
 	}
 	sample("forced interleavings on every backend: a PUT whose body reader is gated (slow uploader) while a GET of the same key, a PUT of another key and a listing by other clients must complete and see the old object; a GET whose ResponseWriter is gated (slow reader) overlapped by an overwrite and by a delete of the same key — the download must deliver in full the object it captured")
+	sample("multipart: the backend write of a CompleteMultipartUpload is held open while a part upload, a second complete, an abort and a part listing of the same upload arrive (both must finish; responses must have a sequential explanation); rounds of 2..5 simultaneous part uploads / completes / aborts / part listings / reads over 2..3 pending uploads on 1..2 keys, searched for a sequential order on the model")
 	sample("rounds of 2, 4, 6 and 16 simultaneous requests (put with unique bodies / get / head / delete / copy over 1..4 keys; memory backend also with versioning enabled): a round is accepted iff some sequential order of its requests reproduces every observed response (status, body, ETag, length, version id) on the model — searched per key for single-key rounds, over all permutations for rounds with a copy")
 }
